@@ -10,7 +10,7 @@ def key(k):
     return (0 if k.startswith("R") else 1, int(m.group(2)) if m.group(2) else 0, k)
 out = ["# Rewrite-rule catalogue (generated from lib/rules.py by tools/gen_rules_md.py; do not edit)", "",
        "Each rule is a fixed, local, textual rewrite applied to the body text copied from /repo; none contains http-serve logic.",
-       "`STD` in a `//@fn` directive stands for the definitional unfoldings %s." % ", ".join(extract.STD_RULES), "",
+       "`STD` in a `//@fn` directive stands for the definitional unfoldings %s; %s do not depend on the receiver's type and are applied to every extracted body." % (", ".join(extract.STD_RULES), ", ".join(extract.ALWAYS_RULES)), "",
        "| id | rewrite and why it preserves meaning / what it drops |", "|----|---|"]
 for k in sorted(rules.RULES, key=key):
     out.append("| %s | %s |" % (k, rules.DOC[k].replace("|", "\\|")))
